@@ -58,6 +58,7 @@ type Program struct {
 	views     map[*ssa.Function]*viewInfo
 	viewOf    map[*ssa.Function]*ssa.Function
 	nonNilMemo map[interface{}]bool
+	soleStores map[*ssa.Global]*ssa.Store
 }
 
 func loadProgram(root string) (*Program, error) {
